@@ -16,6 +16,12 @@ def fuel : Nat := 1000000
 
 def emptySt : St := { h := fun _ => {}, alloc := 0, head := none, tail := none, length := 0 }
 
+/-- the interpreter's heap is a closure that grows by one `if` per write; re-tabulate it after every call so that a read
+    stays O(1) (driver-side only: the function denoted is the same on every address) -/
+def compact (st : St) : St :=
+  let arr : Array Node := Array.ofFn (n := st.alloc) fun i => st.h i.val
+  { st with h := fun a => if h : a < arr.size then arr[a] else {} }
+
 def failTok : Fail → String
   | .panic => "panic:nil-dereference"
   | .fuel => "diverged"
@@ -46,7 +52,7 @@ def valErrTok : Val → String
 /-- result token ("-" = not compared) and new state -/
 def stepOp (st : St) (ws : List String) : Option (Res (String × St)) :=
   let run (fn : PName) (args : List Val) (tok : Val → String) : Res (String × St) :=
-    (call procs fuel fn args st).map fun (v, st1) => (tok v, st1)
+    (call procs fuel fn args st).map fun (v, st1) => (tok v, compact st1)
   match ws with
   | ["get", i] => i.toInt?.map fun i => run .Get [.int i] valErrTok
   | ["append", ts] => (parseInts ts).map fun ts => run .Append [.ints ts] errTok
@@ -96,7 +102,7 @@ def checker (model : Bool) : Checker :=
           | .ok (_, s0) =>
             match (if ts.isEmpty then .ok (Val.unit, s0) else call procs fuel .Append [.ints ts] s0) with
             | .error e => (none, some s!"the translated Append fails ({failTok e})")
-            | .ok (_, s1) => (some s1, same s1)
+            | .ok (_, s1) => (some (compact s1), same s1)
       | _ =>
         match sg with
         | none => (none, none)
